@@ -79,6 +79,10 @@ def concretise(sc, variant=0):
         files["src/emoji_u1f600.svg"] = _valid(5)
         files["src/1f600.svg"] = _valid(6)
         defect_paths = ["src/emoji_u1f600.svg", "src/1f600.svg"]
+        if variant % 2 == 1:
+            # a valid source whose path sorts BETWEEN the two colliding ones (inputs reach the gate in path order)
+            files["src/1f699.svg"] = _valid(7)
+            defect_paths = ["src/emoji_u1f600.svg", "src/1f699.svg", "src/1f600.svg"]
     elif cls == "dupfilename":
         files["src/emoji_u1f600.svg"] = _valid(5)
         files["other/emoji_u1f600.svg"] = _valid(6)
@@ -254,6 +258,13 @@ def run(chk):
         # every way masters can disagree (5 instances), on scenarios with different numbers of valid neighbours
         mm = [sc for sc in pool if sc["cls"] == "mastermismatch" and sc["fmt"] == "vf" and sc["outcome"] == "error"]
         picks = [sc for sc in picks if sc["cls"] != "mastermismatch"] + [dict(mm[i % len(mm)], _variant=i) for i in range(5)]
+        # colliding sources next to each other / separated by a valid source, in every format family
+        dn = [sc for sc in pool if sc["cls"] == "dupname" and sc["outcome"] == "error"]
+        seen_fmt = set()
+        for sc in dn:
+            if sc["fmt"] not in seen_fmt:
+                seen_fmt.add(sc["fmt"])
+                picks.append(dict(sc, _variant=1))
     else:
         picks = pool
     with common.scratch("c17-") as work:
